@@ -173,6 +173,7 @@ fn main() {
         Some("decode-in") => decode_in(&a),
         Some("defrag-run") => defrag_run(&a),
         Some("opts-run") => per_line(&a, verif_harness::tcpopts::run_case),
+        Some("cks-run") => per_line(&a, verif_harness::cks::run_case),
         Some("ext-run") => per_line(&a, verif_harness::extchain::run_config),
         other => {
             eprintln!("unknown sub command {:?}", other);
